@@ -448,6 +448,30 @@ def _family(entry):
     return st.tuples(entry, st.lists(entry, min_size=1, max_size=2), st.lists(st.integers(1, 255), min_size=2, max_size=2)).map(mix)
 
 
+@st.composite
+def _hard_inverse(draw):
+    """Inverse problems where the iteration behaves differently from ordinary lines (slow or no convergence, special branches):
+    end point 0.001 .. 5 deg from the antipode of the start, the two points on one meridian / parallel / the equator, very
+    short lines.  Purity is claimed for every valid argument, so the state such a call may leave behind is part of the history."""
+    import math
+    k = draw(st.integers(0, 5))
+    lat1, lon1 = draw(S.floats(-80.0, 80.0)), draw(S.floats(-179.0, 179.0))
+    if k <= 2:
+        off = draw(S.log_uniform(1e-3, 5.0))
+        b = draw(S.floats(0.0, 2 * math.pi))
+        lat2 = max(-89.0, min(89.0, -lat1 + off * math.cos(b)))
+        lon2 = lon1 + 180.0 + off * math.sin(b) / max(math.cos(math.radians(lat1)), 0.2)
+        lon2 = (lon2 + 180.0) % 360.0 - 180.0
+    elif k == 3:
+        lat2, lon2 = draw(S.floats(-89.0, 89.0)), lon1 + draw(st.sampled_from([0.0, 1e-9, -1e-7]))
+    elif k == 4:
+        lat1 = draw(st.sampled_from([0.0, lat1]))
+        lat2, lon2 = lat1, draw(S.floats(-179.0, 179.0))
+    else:
+        lat2, lon2 = lat1 + draw(S.log_uniform(1e-9, 1e-3)), lon1 + draw(S.log_uniform(1e-9, 1e-3))
+    return {"fn": "vincinv", "a": {"lat1": lat1, "lon1": lon1, "lat2": lat2, "lon2": lon2, "ell": draw(_ell)}}
+
+
 def call_strategy(families=False):
     shipped7 = st.deferred(lambda: st.sampled_from(TR.shipped_names())).map(lambda n: {"name": n})
     shipped_sd = st.deferred(lambda: st.sampled_from(_sd_names())).map(lambda n: {"name": n})
@@ -468,6 +492,7 @@ def call_strategy(families=False):
         _fd("rect2polar", x=S.floats(-1e5, 1e5), y=S.floats(-1e5, 1e5)),
         _fd("vincdir", lat=S.floats(-89, 89), lon=_lon, az=S.floats(0, 360), s=S.floats(1.0, 1e7), ell=_ell, kind=_kind),
         _fd("vincinv", lat1=S.floats(-89, 89), lon1=S.floats(-179, 0), lat2=S.floats(-89, 89), lon2=S.floats(0, 160), ell=_ell),
+        _hard_inverse(),
         _fd("vincinv_utm", zone=st.integers(1, 60), e1=utm_e, n1=utm_n, e2=utm_e, n2=utm_n, hemi=st.sampled_from(["south", "north"]), ell=st.just("grs80")),
         _fd("vincdir_utm", zone=st.integers(1, 60), e1=S.floats(300000.0, 700000.0), n1=S.floats(2000000.0, 8000000.0), brg=S.floats(0, 360),
             dist=S.floats(1.0, 50000.0), hemi=st.sampled_from(["south", "north"]), ell=st.just("grs80")),
